@@ -104,6 +104,10 @@ structure SemOpts where
   /-- reference only: the per-byte actions of a foreach around a `wait` also run when the wait
       meets end-of-input (what the compiled machines do; used to attribute a recorded finding) -/
   waitEndForeach : Bool := false
+  /-- reference only: when a construct that can match nothing is skipped and only assignments /
+      deletes follow up to the end of its block, those are not performed (what the compiled
+      machines do: they lose them; used to attribute a recorded finding) -/
+  skipLoses : Bool := false
   deriving Repr, Inhabited
 
 /-! ### Events and questions -/
@@ -241,7 +245,7 @@ mutual
         .ask (.full out) (if each then c.redispatch oos c.adv else c.oosConst oos)
           (.emit (.appendC out (subst c.o c.x e)) (kNext st))
     | .set out e, st, kNext, _ =>
-        if c.o.dropLoose && !(e.readsOut out) && !e.readsLast then kNext st
+        if c.o.dropLoose && !(e.readsOut out) then kNext st
         else .emit (.set out (subst c.o c.x e)) (kNext st)
     | .setStr out bytes, st, kNext, _ =>
         if c.o.dropLoose then kNext st
